@@ -287,8 +287,15 @@ func run(c *lib.Ctx, s *eng.S, cs caseT) {
 		if cs.Substr != nil {
 			sub = "(Some " + lib.CoqStr(*cs.Substr) + ")"
 		}
-		term := fmt.Sprintf("(mkCase %s %s %d %d %s %s %s %d %d %s %s %s)", lib.CoqStr(cs.Subj), lib.CoqStr(cs.Repl), cs.Pos, cs.Occ,
-			coqLocs(cs.Locs1), coqLocs(cs.LocsPos), lib.CoqBool(like), cs.Instr0, cs.Instr1, sub, lib.CoqStr(cs.ReplK), lib.CoqStr(cs.Repl0))
+		ast := "None"
+		if cs.MT == "" || cs.MT == "c" {
+			if t := coqPattern(cs.Pat); t != "" {
+				ast = "(Some " + t + ")"
+				c.Count("reference_matcher_compared")
+			}
+		}
+		term := fmt.Sprintf("(mkCase %s %s %d %d %s %s %s %d %d %s %s %s %s)", lib.CoqStr(cs.Subj), lib.CoqStr(cs.Repl), cs.Pos, cs.Occ,
+			coqLocs(cs.Locs1), coqLocs(cs.LocsPos), lib.CoqBool(like), cs.Instr0, cs.Instr1, sub, lib.CoqStr(cs.ReplK), lib.CoqStr(cs.Repl0), ast)
 		id = c.Case(term, cs, key)
 	} else {
 		c.Count("non_ascii_subject")
@@ -413,6 +420,198 @@ func run(c *lib.Ctx, s *eng.S, cs caseT) {
 	}
 }
 
+// ---------- pattern -> Coq AST for the reference matcher (layer 2) ----------
+
+type reParser struct {
+	s   string
+	i   int
+	err bool
+}
+
+func coqSeq(a, b string) string {
+	if a == "Eps" {
+		return b
+	}
+	if b == "Eps" {
+		return a
+	}
+	return "(Seq " + a + " " + b + ")"
+}
+
+func (p *reParser) alt() string {
+	l := p.seq()
+	for p.i < len(p.s) && p.s[p.i] == '|' {
+		p.i++
+		r := p.seq()
+		l = "(Alt " + l + " " + r + ")"
+	}
+	return l
+}
+
+func (p *reParser) seq() string {
+	out := "Eps"
+	var parts []string
+	for p.i < len(p.s) && p.s[p.i] != '|' && p.s[p.i] != ')' {
+		parts = append(parts, p.piece())
+		if p.err {
+			return "Eps"
+		}
+	}
+	for k := len(parts) - 1; k >= 0; k-- {
+		out = coqSeq(parts[k], out)
+	}
+	return out
+}
+
+func rep(a string, n int) string {
+	out := "Eps"
+	for k := 0; k < n; k++ {
+		out = coqSeq(a, out)
+	}
+	return out
+}
+
+func (p *reParser) piece() string {
+	a := p.atom()
+	if p.err || p.i >= len(p.s) {
+		return a
+	}
+	switch p.s[p.i] {
+	case '*':
+		p.i++
+		return "(Star " + a + ")"
+	case '+':
+		p.i++
+		return "(Plus " + a + ")"
+	case '?':
+		p.i++
+		return "(Opt " + a + ")"
+	case '{':
+		j := strings.IndexByte(p.s[p.i:], '}')
+		if j < 0 {
+			p.err = true
+			return a
+		}
+		body := p.s[p.i+1 : p.i+j]
+		p.i += j + 1
+		var lo, hi int
+		switch {
+		case strings.HasSuffix(body, ","):
+			if _, e := fmt.Sscanf(body, "%d,", &lo); e != nil {
+				p.err = true
+				return a
+			}
+			return coqSeq(rep(a, lo), "(Star "+a+")")
+		case strings.Contains(body, ","):
+			if _, e := fmt.Sscanf(body, "%d,%d", &lo, &hi); e != nil || hi < lo {
+				p.err = true
+				return a
+			}
+			opt := "Eps"
+			for k := 0; k < hi-lo; k++ {
+				opt = "(Opt " + coqSeq(a, opt) + ")"
+			}
+			return coqSeq(rep(a, lo), opt)
+		default:
+			if _, e := fmt.Sscanf(body, "%d", &lo); e != nil {
+				p.err = true
+				return a
+			}
+			return rep(a, lo)
+		}
+	}
+	return a
+}
+
+func (p *reParser) atom() string {
+	ch := p.s[p.i]
+	switch ch {
+	case '(':
+		p.i++
+		r := p.alt()
+		if p.i >= len(p.s) || p.s[p.i] != ')' {
+			p.err = true
+			return "Eps"
+		}
+		p.i++
+		return r
+	case '.':
+		p.i++
+		return "Any"
+	case '^':
+		p.i++
+		return "Bol"
+	case '$':
+		p.i++
+		return "Eol"
+	case '\\':
+		if p.i+1 >= len(p.s) {
+			p.err = true
+			return "Eps"
+		}
+		p.i += 2
+		switch p.s[p.i-1] {
+		case 'd':
+			return "(Cls false [(48, 57)])"
+		case 'w':
+			return "(Cls false [(48, 57); (65, 90); (95, 95); (97, 122)])"
+		case 's':
+			return "(Cls false [(9, 13); (32, 32)])"
+		}
+		p.err = true
+		return "Eps"
+	case '[':
+		j := strings.IndexByte(p.s[p.i:], ']')
+		if j < 0 {
+			p.err = true
+			return "Eps"
+		}
+		body := p.s[p.i+1 : p.i+j]
+		p.i += j + 1
+		neg := "false"
+		if strings.HasPrefix(body, "^") {
+			neg = "true"
+			body = body[1:]
+		}
+		var rs []string
+		for k := 0; k < len(body); k++ {
+			if body[k] == '\\' || body[k] == '[' {
+				p.err = true
+				return "Eps"
+			}
+			if k+2 < len(body) && body[k+1] == '-' {
+				rs = append(rs, fmt.Sprintf("(%d, %d)", body[k], body[k+2]))
+				k += 2
+			} else {
+				rs = append(rs, fmt.Sprintf("(%d, %d)", body[k], body[k]))
+			}
+		}
+		return "(Cls " + neg + " " + lib.CoqList(rs) + ")"
+	case '*', '+', '?', '{', '}', ')', '|', ']':
+		p.err = true
+		return "Eps"
+	}
+	if ch >= 0x80 {
+		p.err = true
+		return "Eps"
+	}
+	p.i++
+	return fmt.Sprintf("(Chr %d)", ch)
+}
+
+// coqPattern returns the Coq term of the pattern, or "" when it is outside the subset of the reference matcher.
+func coqPattern(pat string) string {
+	if pat == "" || nullableLoopBody(pat) {
+		return ""
+	}
+	p := &reParser{s: pat}
+	r := p.alt()
+	if p.err || p.i != len(pat) {
+		return ""
+	}
+	return r
+}
+
 // ---------- table-driven evaluation: arguments in columns / uncorrelated subqueries, several rows per query ----------
 
 type groupT struct {
@@ -441,9 +640,14 @@ func swapCase(s string) string {
 // genGroup: rows 0..2 share one pattern string (match types c, i, c; subjects differ in case), row 3 is independent.
 func genGroup(r *lib.RNG) []caseT {
 	var base caseT
-	for {
+	for try := 0; ; try++ {
 		base = gen(r)
-		if !base.Bad && isASCII(base.Subj) && len(base.Subj) >= 2 {
+		if base.Bad || !isASCII(base.Subj) || len(base.Subj) < 2 {
+			continue
+		}
+		// prefer a base whose result depends on the match type: matches as written, not with the case swapped
+		re, err := regexp.Compile(base.Pat)
+		if try > 60 || (err == nil && re.MatchString(base.Subj) && !re.MatchString(swapCase(base.Subj))) {
 			break
 		}
 	}
@@ -461,7 +665,7 @@ func genGroup(r *lib.RNG) []caseT {
 		rows[0].MT, rows[1].MT, rows[2].MT = "i", "c", "i"
 	}
 	rows[1].Subj = swapCase(base.Subj)
-	if r.Bool() {
+	if r.Chance(1, 5) {
 		rows[1].Subj = base.Subj
 	}
 	rows[2].Subj = swapCase(base.Subj) + "ab"
@@ -612,7 +816,7 @@ func nullableLoopBody(pat string) bool {
 
 func main() {
 	lib.Main("C33", func(c *lib.Ctx) {
-		c.Header = "From Coq Require Import List NArith.\nImport ListNotations.\nFrom GMS Require Import Corr.C33.\nOpen Scope N_scope."
+		c.Header = "From Coq Require Import List NArith.\nImport ListNotations.\nFrom GMS Require Import Sys.C33Matcher Corr.C33.\nOpen Scope N_scope."
 		c.CaseType = "C33.case"
 		c.MismatchFn = "C33.mismatches"
 		c.SetRule("patterns from the common RE2/ICU subset (literals, '.', classes, \\d \\w \\s, groups, alternation, * + ? {m,n}, 1/12 ^ and $), " +
@@ -655,7 +859,7 @@ func main() {
 		}
 		fixedGroup := []caseT{
 			{Pat: "[a-z]+", Subj: "abc DEF", Repl: "X", Pos: 1, Occ: 1, MT: "c"},
-			{Pat: "[a-z]+", Subj: "ABC def", Repl: "X", Pos: 1, Occ: 1, MT: "i"},
+			{Pat: "[a-z]+", Subj: "ABC DEF", Repl: "X", Pos: 1, Occ: 1, MT: "i"},
 			{Pat: "[a-z]+", Subj: "ABC defab", Repl: "X", Pos: 1, Occ: 1, MT: "c"},
 			{Pat: "[0-9]+", Subj: "ab12 345", Repl: "Y", Pos: 1, Occ: 1, MT: "c"},
 		}
